@@ -77,6 +77,13 @@ CLAIMED["C07"] = dict(
    technique="contract-based deductive verification: quantified loop invariants over a nested map model, ghost writer output, default method contracts, call-site clauses evaluated in the caller, axiomatised spec functions; weaker-query portfolio (string abstraction, local hypotheses) for discharge; replay oracle = real parser+generator on templates, tables compared byte by byte",
    design="5.C07")
 
+CLAIMED["C16"] = dict(
+   level="proof",
+   text="(1) Literal protocol, proved: static text reaches RangeWriter.WriteStringLiteral only in a form without raw line feeds (obligation at each of the 25 call sites of the generator, discharged from strconv.Quote's assumed contract via escapeQuotes, html.EscapeString, constants and the parser's name character sets as type invariants); closeLiteral gives the pending literal the next number k, records it as Literals[k-1], keeps every earlier literal, and the text it emits contains the call WriteString(buffer, k, \"literal\") with that number and that literal; Write/WriteIndent flush at most one pending literal and change nothing else about the literals; every generator method keeps len(Literals) == index and 'all literals are line-feed free' (61 functions, default method contract). runtime.WriteString: outside development mode it writes the compiled literal, in development mode it writes unquote('\"' + lines[index-1] + '\"') of the watched file, for index >= 1. With the two library facts listed in the note this gives 'development text file rendering = compiled rendering'. (2) Edit classification: the contract of generator.HasChanged - 'no recompilation' only if the Go code of the two outputs is the same apart from literal bodies (ghost attribute skeleton) - cannot be discharged from what HasChanged compares; the failing obligation is replayed on the real generator (title={x} -> href={x} and others) and recorded as a KNOWN-FINDING, not repaired.",
+   note="govc + solvers; assumed: strconv.Unquote agrees with the Go compiler on an interpreted string literal; strings.Split(strings.Join(L, '\\n'), '\\n') == L for line-feed-free parts; strconv.Quote's result body has no raw line feed; html.EscapeString neither adds nor removes line feeds; parser type invariants (names without line feed, TrailingSpace one of three constants); FSEventHandler.generate (writes Join(Literals) to the text file, calls HasChanged) is outside the executor's subset and read off the code; file system, runtime.Caller and the 100 ms cache of the watched file are environment; literal validity as Go syntax (the generated file compiles) is C02 and not claimed",
+   technique="contract-based deductive verification: regular-language preconditions at call sites, representation invariant of the literal collector over a default method contract, ghost attribute for the code of a generator output; replay = real parser/generator/HasChanged on templates and edit pairs",
+   design="5.C16")
+
 NA = {
  "C02": "compiler correctness: needs a formal semantics of templ and of the emitted Go subset; no per-function contract can state 'denotes' without restating the generator (locally expressible parts are claimed under C01/C03/C04/C10/C16/C07)",
  "C08": "whole-formatter semantic preservation needs the same two semantics plus go/format; not expressible as function contracts",
